@@ -68,5 +68,16 @@ DAG5 == {GraphCirc(5, E) : E \in SUBSET PairsLT(5)}
 DAG6 == {GraphCirc(6, E) : E \in SUBSET PairsLT(6)}
 DG3  == {GraphCirc(3, E) : E \in SUBSET PairsNE(3)}
 DG4  == {GraphCirc(4, E) : E \in SUBSET PairsNE(4)}
+(* ill-formed and well-formed two-node graphs for lint: every pair of names from {a, b, i.d, i.q}, every pair of
+   type attributes (supported, missing, unsupported), every edge set incl. self-loops, with/without instance i *)
+LTypes == Supported \cup {NoType, "foo"}
+LPairs == { <<"a","b">>, <<"a","i.d">>, <<"a","i.q">>, <<"b","i.q">>, <<"i.d","i.q">>, <<"b","i.d">> }
+LRegs  == { <<>>, << [inst |-> "i", type |-> "ff", ins |-> <<"d">>, outs |-> <<"q">>] >> }
+LintCirc(nm, t1, t2, E, o1, reg) ==
+  [name |-> "lfam", n |-> 2, names |-> nm, ty |-> <<t1, t2>>, out |-> <<o1, FALSE>>,
+   fi |-> << SelectSeq(<<1,2>>, LAMBDA p : <<p,1>> \in E), SelectSeq(<<1,2>>, LAMBDA p : <<p,2>> \in E) >>,
+   bbs |-> reg, acyc |-> FALSE]
+L2 == {LintCirc(nm, t1, t2, E, o1, reg) : nm \in LPairs, t1 \in LTypes, t2 \in LTypes,
+                                          E \in SUBSET ((1..2) \X (1..2)), o1 \in BOOLEAN, reg \in LRegs}
 NoX(F) == {c \in F : "x" \notin Range(c.ty)}
 =============================================================================
